@@ -116,3 +116,78 @@ Proof. intros Hd HC q. exact (haissinski_log_form Iw dth 1 C Hd q HC). Qed.
 
 Lemma example_antiderivative : forall q : R, is_derive (fun q => q * q / 2) q q.
 Proof. intros q. auto_derive; [exact I|]. field. Qed.
+
+(** ** the converse, in the direction the property is worded: a *stationary* density whose
+    energy distribution is the unit Gaussian has a profile that satisfies the Haissinski equation *)
+Section Necessary.
+  Variables (W Iw rh drh : R -> R) (dth kappa beta : R).
+  Hypothesis HI : forall q, is_derive Iw q (W q).
+  Hypothesis Hd : dth <> 0.
+  Hypothesis Hrho : forall q, is_derive rh q (drh q).
+  Hypothesis Hpos : forall q, 0 < rh q.
+
+  Definition psi_of (q p : R) : R := rh q * exp (- p ^ 2 / 2).
+
+  Hypothesis Hstat : forall q p, VFP kappa (fun q => W q / dth) beta psi_of q p = 0.
+
+  Lemma psi_of_dq q p : Derive (fun q' => psi_of q' p) q = drh q * exp (- p ^ 2 / 2).
+  Proof.
+    apply is_derive_unique. unfold psi_of. auto_derive.
+    - eexists; apply Hrho.
+    - replace (Derive (fun x : R => rh x) q) with (drh q) by (symmetry; apply is_derive_unique, Hrho).
+      simpl (p ^ 2). ring.
+  Qed.
+
+  Lemma psi_of_dp q p : Derive (fun p' => psi_of q p') p = - p * psi_of q p.
+  Proof.
+    apply is_derive_unique. unfold psi_of. auto_derive; [exact I|].
+    simpl (p ^ 2). unfold Rdiv. field.
+  Qed.
+
+  Lemma profile_equation q : drh q = (- kappa * q + W q / dth) * rh q.
+  Proof.
+    pose proof (Hstat q 1) as H. unfold VFP in H.
+    rewrite psi_of_dq, psi_of_dp in H.
+    rewrite (Derive_ext _ (fun _ => 0)) in H by (intros t; rewrite psi_of_dp; ring).
+    rewrite Derive_const in H. unfold psi_of in H.
+    assert (HE : exp (- 1 ^ 2 / 2) <> 0) by (apply Rgt_not_eq, exp_pos).
+    apply (Rmult_eq_reg_r (exp (- 1 ^ 2 / 2))); [|exact HE]. lra.
+  Qed.
+
+  Definition Gfun (q : R) : R := ln (rh q) + kappa * q ^ 2 / 2 - Iw q / dth.
+
+  Lemma Gfun_derive q : is_derive Gfun q 0.
+  Proof.
+    unfold Gfun. auto_derive.
+    - repeat split; try (eexists; apply Hrho); try (eexists; apply HI); try apply Hpos.
+    - replace (Derive (fun x : R => rh x) q) with (drh q) by (symmetry; apply is_derive_unique, Hrho).
+      replace (Derive (fun x : R => Iw x) q) with (W q) by (symmetry; apply is_derive_unique, HI).
+      rewrite profile_equation. field. split; [exact Hd | apply Rgt_not_eq, Hpos].
+  Qed.
+
+  Theorem haissinski_necessary q : Gfun q = Gfun 0.
+  Proof.
+    destruct (MVT_gen Gfun 0 q (fun _ => 0)) as (c & _ & Hc).
+    - intros x _. apply Gfun_derive.
+    - intros x _. apply continuity_pt_filterlim.
+      apply (ex_derive_continuous Gfun x). eexists; apply Gfun_derive.
+    - lra.
+  Qed.
+End Necessary.
+
+(** the hypotheses of [haissinski_necessary] are satisfiable: the Haissinski density itself *)
+Lemma necessary_hypotheses_satisfiable :
+  let W := fun q : R => q in let Iw := fun q : R => q * q / 2 in
+  let rh := rho Iw 1 1 1 in
+  (forall q, is_derive Iw q (W q)) /\ (forall q, 0 < rh q) /\
+  (forall q, is_derive rh q ((- 1 * q + W q / 1) * rh q)) /\
+  (forall q p, VFP 1 (fun q => W q / 1) 0 (psi_of rh) q p = 0).
+Proof.
+  intros W Iw rh.
+  assert (HI : forall q, is_derive Iw q (W q)) by exact example_antiderivative.
+  split; [|split; [|split]].
+  - exact HI.
+  - intros q. unfold rh, rho. apply Rmult_lt_0_compat; [lra | apply exp_pos].
+  - intros q. apply (rho_derive W Iw 1 1 1 HI). lra.
+  - intros q p. apply (haissinski_stationary_kappa W Iw 1 1 0 1 HI). lra.
+Qed.
